@@ -23,6 +23,7 @@ pub enum Sub {
     /// closure ordinal, header text (`|x: T| -> (r: R)`), contract text
     Closure(usize, String, String),
     Loop(usize, Option<String>, String),
+    LoopStart(usize, String),
     Before(String, String),
     After(String, String),
     Replace(String, String),
@@ -126,6 +127,10 @@ pub fn parse(text: &str, cdir: &str) -> Result<Vec<Dir>, String> {
                         let n: usize = parts.next().and_then(|s| s.parse().ok()).ok_or(format!("bad @@.loop at line {}", i))?;
                         let it = parts.next().and_then(|s| s.strip_prefix("iter=")).map(|s| s.to_string());
                         take.subs.push(Sub::Loop(n, it, b));
+                    }
+                    "loop-start" => {
+                        let n: usize = arg.trim().parse().map_err(|_| format!("bad @@.loop-start at line {}", i))?;
+                        take.subs.push(Sub::LoopStart(n, b));
                     }
                     "closure" => {
                         let (n, hdr) = arg.split_once(char::is_whitespace).ok_or(format!("bad @@.closure at line {}", i))?;
